@@ -38,11 +38,19 @@ Fixpoint update_nth {A} (n : nat) (f : A -> A) (l : list A) : list A :=
 
 Definition snoc_prop (ps : props) (p : property) : props := papp ps (PCons p PNil).
 
-(* an option is appended only to an enum that already has options: appended to an empty one it
-   could take the place of the implicit zero value *)
+(* Options [extra] may be appended to an enum with options [opts] - always when the enum has
+   options; to an enum WITHOUT options unless the first new option ends in UNSPECIFIED: that
+   option would be the enum's first and a first option ending in UNSPECIFIED is taken as the
+   zero value, replacing the implicit <PREFIX>UNSPECIFIED (known finding, exactly this class:
+   C13_append_to_empty_enum_refuted). *)
+Definition unspec (o : str) : bool := has_suffix (b "UNSPECIFIED") o.
+Definition enum_append_ok (opts extra : list str) : Prop :=
+  opts <> [] \/ match extra with [] => True | o :: _ => unspec o = false end.
+
+(* inside a declaration (EAppendIn) the excluded append changes nothing *)
 Definition enum_snoc (e : enum) (o : str) : enum :=
   match e_opts e with
-  | [] => e
+  | [] => if unspec o then e else mkEnum (e_name e) (e_prefix e) [o]
   | _ => mkEnum (e_name e) (e_prefix e) (e_opts e ++ [o])
   end.
 
@@ -245,14 +253,14 @@ Definition files_ext_b (D D' : list dfile) : bool := sub_list_b file_ext_b D D'.
 (* What any sequence of C13 edits does to a source file, as a relation: properties appended
    to objects / oneofs / requests / responses / topic messages and to the inline objects /
    oneofs inside them (to any depth, also through arrays and maps) and to the nested
-   declarations of objects / oneofs, options appended to (non-empty) enums - declared, nested
-   or inline -, nested declarations appended to objects / oneofs, declarations appended to the
+   declarations of objects / oneofs, options appended to enums - declared, nested or inline;
+   [enum_append_ok]: not a first option ending in UNSPECIFIED to an enum without options -, nested declarations appended to objects / oneofs, declarations appended to the
    file. *)
 Inductive field_ext : field -> field -> Prop :=
 | fe_refl : forall f, field_ext f f
 | fe_obj : forall nm ps ps', props_ext ps ps' -> field_ext (FObjInline nm ps) (FObjInline nm ps')
 | fe_oneof : forall nm ps ps', props_ext ps ps' -> field_ext (FOneofInline nm ps) (FOneofInline nm ps')
-| fe_enum : forall nm pfx opts extra, opts <> [] ->
+| fe_enum : forall nm pfx opts extra, enum_append_ok opts extra ->
     field_ext (FEnumInline (mkEnum nm pfx opts)) (FEnumInline (mkEnum nm pfx (opts ++ extra)))
 | fe_array : forall it it', field_ext it it' -> field_ext (FArray it) (FArray it')
 | fe_map : forall it it', field_ext it it' -> field_ext (FMap it) (FMap it')
@@ -275,7 +283,7 @@ Inductive nested_ext : nested -> nested -> Prop :=
     nested_ext (NObject nm ps subs) (NObject nm ps' subs')
 | ne_oneof : forall nm ps ps' subs subs', props_ext ps ps' -> nesteds_ext subs subs' ->
     nested_ext (NOneof nm ps subs) (NOneof nm ps' subs')
-| ne_enum : forall nm pfx opts extra, opts <> [] ->
+| ne_enum : forall nm pfx opts extra, enum_append_ok opts extra ->
     nested_ext (NEnum (mkEnum nm pfx opts)) (NEnum (mkEnum nm pfx (opts ++ extra)))
 with nesteds_ext : nesteds -> nesteds -> Prop :=
 | nn_nil : forall extra, nesteds_ext NNil extra
@@ -310,7 +318,7 @@ Inductive element_ext : element -> element -> Prop :=
 | ee_oneof : forall nm ps ps' subs subs', props_ext ps ps' -> nesteds_ext subs subs' ->
     element_ext (EOneof nm ps subs) (EOneof nm ps' subs')
 | ee_enum_same : forall en, element_ext (EEnum en) (EEnum en)
-| ee_enum : forall nm pfx opts extra, opts <> [] ->
+| ee_enum : forall nm pfx opts extra, enum_append_ok opts extra ->
     element_ext (EEnum (mkEnum nm pfx opts)) (EEnum (mkEnum nm pfx (opts ++ extra)))
 | ee_service : forall nm base ms ms', Forall2 method_ext ms ms' ->
     element_ext (EService (mkService nm base ms)) (EService (mkService nm base ms'))
